@@ -20,6 +20,8 @@ template <class Top, int D> bool intervalOf(const Top& top, long& lo, long& hi, 
     return true;
 }
 
+// set by the case runner: run the top tree as three flagged calls instead of one
+inline bool& topTreeStaged() { static bool b = false; return b; }
 template <class A, class B, class C> using SeqAlgo = TbfAlgorithm<A, B, C>;
 // executor abstraction: runs the documented four-call sequence
 template <class E, template <class, class, class> class Algo> void periodicSingle(const Conf<E>& c, long extra, Result& res, const char* tag, const std::function<void(vp::RecCtx<E::Cfg::Dim>&)>& setup = nullptr, const std::function<void()>& beforeExecute = nullptr) {
@@ -39,7 +41,10 @@ template <class E, template <class, class, class> class Algo> void periodicSingl
         if (beforeExecute) beforeExecute();
         algo->execute(*pr.tree, TbfBottomToTopStages);
         rc.beginTop(extra);
-        top->execute(*pr.tree);
+        if (topTreeStaged()) {   // the top tree takes operator flags too: its three stages one call each, and the flags it has no stage for (no-ops)
+            top->execute(*pr.tree, TbfP2M | TbfP2P | TbfL2P); top->execute(*pr.tree, TbfM2M); top->execute(*pr.tree, TbfM2L); top->execute(*pr.tree, TbfL2L);
+            res.ev("top-tree-staged-runs");
+        } else top->execute(*pr.tree);
         rc.topTree = false;
         if (beforeExecute) beforeExecute();
         algo->execute(*pr.tree, TbfTransferStages);
@@ -92,7 +97,10 @@ template <class E, template <class, class, class> class AlgoTsm = SeqAlgoTsm> vo
         if (beforeExecute) beforeExecute();
         algo->execute(*pr.tree, TbfBottomToTopStages);
         rc.beginTop(extra);
-        top->execute(*pr.tree);
+        if (topTreeStaged()) {
+            top->execute(*pr.tree, TbfP2M | TbfP2P | TbfL2P); top->execute(*pr.tree, TbfM2M); top->execute(*pr.tree, TbfM2L); top->execute(*pr.tree, TbfL2L);
+            res.ev("top-tree-staged-runs");
+        } else top->execute(*pr.tree);
         rc.topTree = false;
         if (beforeExecute) beforeExecute();
         algo->execute(*pr.tree, TbfTransferStages);
@@ -115,6 +123,7 @@ template <class E> Segment c10Segment(long nQ, long nT) {
         const long extraMax = D == 3 ? 3 : 5;
         const long extra = (kk % 7 == 0) ? extraMax : r.range(-1, th ? extraMax : std::min<long>(extraMax, 3));
         const int sub = int(kk % 3);
+        topTreeStaged() = (kk % 4 == 1);
         if (sub != 2) {
             auto c = randomConf<E>(r, vh::mix(seed, kk), extra >= 4 ? 40 : 120, false, 2);
             if (r.coin(0.3)) { // particles on the periodic boundary faces
@@ -133,6 +142,83 @@ template <class E> Segment c10Segment(long nQ, long nT) {
             periodicTsm<E>(c, extra, res, "c10");
             res.sig = "per-tsm:D" + vh::str(D) + "," + vh::str(vh::mix(c.seed, 6)) + ",x" + vh::str(extra); res.nontrivial = true;
         }
+    };
+    return s;
+}
+
+//================================================================================================ C08 on the periodic four-call sequence
+// one periodic input, many groupings: the top tree gathers the level-1 cells across all level-1 groups, so the grouping reaches it too;
+// results, in-tree expansions (and the direct image sum) must not depend on it. Alternately the single-tree and the target/source top tree.
+template <class E> Segment c08PeriodicSegment(long nQ, long nT) {
+    constexpr int D = E::Cfg::Dim;
+    using Real = typename E::Cfg::RealType;
+    Segment s; s.name = std::string("c08-periodic-D") + vh::str(D);
+    s.count = [=](bool th) { return th ? nT : nQ; };
+    s.run = [=](long kk, uint64_t seed, bool th, Result& res) {
+        using namespace TbfAlgorithmUtils;
+        vh::Rng r(vh::mix(seed ^ 0xC08B, uint64_t(kk) * 4 + D));
+        const long extra = r.range(-1, D == 3 ? 2 : 3);
+        long groupings = 0;
+        if (kk % 2 == 0) {
+            auto c = randomConf<E>(r, vh::mix(seed, kk), th ? 200 : 100, false, 2);
+            c.upper = 1;
+            const long N = long(c.parts.size());
+            std::vector<long> bss = tbx::blockSizesFor(N, N <= 10);
+            if (!th && bss.size() > 7) { std::vector<long> k2(bss.begin(), bss.begin() + 4); k2.insert(k2.end(), bss.end() - 3, bss.end()); bss = k2; }
+            bss.push_back(-1);
+            res.desc = confDesc<E>(c) + " extraLevels=" + vh::str(extra) + " top-tree=single groupings=" + vh::str(bss.size() * 2);
+            bool haveRef = false; TreeBytes<typename E::PolyTree, typename E::PV> ref; std::string refName;
+            for (long bs : bss) for (int ogp = 0; ogp < 2; ++ogp) {
+                Conf<E> cc = c; cc.blockSize = bs; cc.oneGroupPerParent = ogp;
+                PolyRun<E, typename E::PolyKernel> pr; pr.build(cc);
+                long lo = 0, hi = 0;
+                {
+                    auto algo = std::make_unique<TbfAlgorithm<Real, typename E::PolyKernel, typename E::Space>>(*pr.cfg, TbfDefaultLastLevelPeriodic);
+                    auto top = std::make_unique<TbfAlgorithmPeriodicTopTree<Real, typename E::PolyKernel, typename E::PV, typename E::PV, typename E::Space>>(*pr.cfg, extra);
+                    algo->execute(*pr.tree, TbfBottomToTopStages); top->execute(*pr.tree); algo->execute(*pr.tree, TbfTransferStages); algo->execute(*pr.tree, TbfTopToBottomStages);
+                    if (!intervalOf<decltype(*top), D>(*top, lo, hi, res, "c08:periodic")) return;
+                }
+                const auto got = snapshotTree<E>(*pr.tree, N);
+                const std::string name = "bs=" + vh::str(bs) + ",ogp=" + vh::str(ogp);
+                if (!haveRef) { haveRef = true; ref = got; refName = name; pr.reference(false, res, lo, hi); pr.compare(res, "c08:periodic:poly-image-sum"); }
+                else {
+                    if (got.rhs != ref.rhs) res.fail("c08:periodic:results-differ", name + " vs " + refName + " extraLevels=" + vh::str(extra));
+                    if (got.cells != ref.cells) res.fail("c08:periodic:expansions-differ", name + " vs " + refName + " extraLevels=" + vh::str(extra));
+                }
+                ++groupings;
+            }
+            res.sig = "c08per:" + confSig<E>(c, vh::mix(c.seed, 8)) + ",x" + vh::str(extra); res.nontrivial = N >= 2;
+        } else {
+            auto c = randomTsmConf<E>(r, vh::mix(seed, kk), th ? 160 : 80, 2);
+            c.upper = 1;
+            const long nl = long(std::max(c.src.size(), c.tgt.size()));
+            std::vector<long> bss = tbx::blockSizesFor(nl, nl <= 10);
+            if (!th && bss.size() > 7) { std::vector<long> k2(bss.begin(), bss.begin() + 4); k2.insert(k2.end(), bss.end() - 3, bss.end()); bss = k2; }
+            bss.push_back(-1);
+            res.desc = tsmDesc<E>(c) + " extraLevels=" + vh::str(extra) + " top-tree=target/source groupings=" + vh::str(bss.size() * 2);
+            bool haveRef = false; typename TsmPolyRun<E>::Snap ref; std::string refName;
+            for (long bs : bss) for (int ogp = 0; ogp < 2; ++ogp) {
+                TsmConf<E> cc = c; cc.blockSize = bs; cc.ogp = ogp;
+                TsmPolyRun<E> pr; pr.build(cc);
+                long lo = 0, hi = 0;
+                {
+                    auto algo = std::make_unique<TbfAlgorithmTsm<Real, typename E::PolyKernel, typename E::Space>>(*pr.cfg, TbfDefaultLastLevelPeriodic);
+                    auto top = std::make_unique<TbfAlgorithmPeriodicTopTreeTsm<Real, typename E::PolyKernel, typename E::PV, typename E::PV, typename E::Space>>(*pr.cfg, extra);
+                    algo->execute(*pr.tree, TbfBottomToTopStages); top->execute(*pr.tree); algo->execute(*pr.tree, TbfTransferStages); algo->execute(*pr.tree, TbfTopToBottomStages);
+                    if (!intervalOf<decltype(*top), D>(*top, lo, hi, res, "c08:periodic")) return;
+                }
+                const auto got = pr.snapshot();
+                const std::string name = "bs=" + vh::str(bs) + ",ogp=" + vh::str(ogp);
+                if (!haveRef) { haveRef = true; ref = got; refName = name; pr.reference(lo, hi); pr.compare(res, "c08:periodic:poly-image-sum"); }
+                else {
+                    if (got.rhs != ref.rhs) res.fail("c08:periodic:results-differ", "target/source " + name + " vs " + refName + " extraLevels=" + vh::str(extra));
+                    if (got.m != ref.m || got.l != ref.l) res.fail("c08:periodic:expansions-differ", "target/source " + name + " vs " + refName + " extraLevels=" + vh::str(extra));
+                }
+                ++groupings;
+            }
+            res.sig = "c08per-tsm:D" + vh::str(D) + "," + vh::str(vh::mix(c.seed, 9)) + ",x" + vh::str(extra); res.nontrivial = true;
+        }
+        res.ev("groupings", groupings); res.ev("periodic-groupings", groupings);
     };
     return s;
 }
